@@ -25,6 +25,16 @@ fn real_main(args: &[String]) -> i32 {
             }
             0
         }
+        "corpus" => {
+            for i in 0..fv::corpus::CORPUS_TOTAL {
+                match engine::caught(|| fv::corpus::build(i, 1)) {
+                    Ok(Ok(c)) => say!("{:3} {:40} packets={} tl={:?}", i, c.label, c.packets.len(), c.expected.iter().map(|e| e.1.len()).collect::<Vec<_>>()),
+                    Ok(Err(e)) => say!("{:3} ERROR {}", i, e),
+                    Err(p) => say!("{:3} PANIC {} {:?}", i, p, fv::corpus::corpus_spec(i, 1).2),
+                }
+            }
+            0
+        }
         "replay" => {
             if args.len() < 3 {
                 return usage();
